@@ -110,6 +110,9 @@ let snap_hook : (round_rec list -> string) ref = ref (fun _ -> "-")
 
 let run_case (toks : string list) : string option =
   match toks with
+  | "run" :: cfg :: _ :: _ :: _ when not (builder_accepts (parse_cfg cfg)) ->
+    (* Builder::build refuses the configuration (model Core/Builder.v): nothing runs *)
+    Some "res=err:badconfig sends=- rounds=- snap=-"
   | "run" :: cfg :: t0 :: iters :: _ ->
     let ((evs, outc), _) = run (parse_cfg cfg) (zi t0) (parse_iters iters) in
     let pubs = List.filter_map (function EPublish r -> Some r | _ -> None) evs in
